@@ -706,6 +706,18 @@ func c17StorageRun(r *Rng, it int, vInit, aInit []byte, viol func(kind, what str
 					}
 					sn := int(*as.SegmentTemplate.StartNumber)
 					cnt := len(expandTL(as.SegmentTemplate))
+					// the MPD keeps up: without an outage every track has delivered every round, so the last round is listed (a
+					// renumbered channel counts from the shifted time: the same number or one more) and the window is filled
+					if gapAt < 0 {
+						wantCnt := int(tsbd)/2 + 1
+						if nSegs-3 < wantCnt {
+							wantCnt = nSegs - 3
+						}
+						if last := sn + cnt - 1; last < int(seq0)+nSegs-1 || (lateTrack < 0 && cnt < wantCnt) {
+							viol("mpd-stale", fmt.Sprintf("after the run the timeline MPD lists %d..%d for %s, every track has delivered up to %d and the window holds %d segments", sn, last, as.Representations[0].ID, int(seq0)+nSegs-1, wantCnt), []string{tag}, nil)
+							break
+						}
+					}
 					for _, rp := range as.Representations {
 						for n := sn; n < sn+cnt; n++ {
 							if st, ok := stored[rp.ID]; ok && !st[n] {
